@@ -4,6 +4,8 @@ package main
 
 import (
 	"fmt"
+	"os"
+	"runtime/debug"
 	"go/types"
 	"sort"
 	"strings"
@@ -15,7 +17,12 @@ type EncError struct{ msg string }
 
 func (e EncError) Error() string { return e.msg }
 
-func encFail(f string, a ...interface{}) { panic(EncError{fmt.Sprintf(f, a...)}) }
+func encFail(f string, a ...interface{}) {
+	if os.Getenv("GOVC_DEBUG") != "" {
+		debug.PrintStack()
+	}
+	panic(EncError{fmt.Sprintf(f, a...)})
+}
 
 type retInfo struct {
 	cond    Term
@@ -73,6 +80,7 @@ type Frame struct {
 	iters    []*ssa.Range
 	allocNote bool
 	canaryGoals map[int][]Term
+	reachParts map[*ssa.BasicBlock][]Term // disjuncts of a merge block's reach condition
 }
 
 func (fr *Frame) isBackEdge(from, to *ssa.BasicBlock) bool {
@@ -316,6 +324,7 @@ func (fr *Frame) run() {
 				fr.ctx.assert(eq(r, or(conds...)), fmt.Sprintf("reach block %d", b.Index))
 				reach = r
 				st = mergeStates(fr.ctx, mins)
+				fr.reachParts[b] = conds
 			}
 			// name long reach terms
 			if len(reach) > 40 && len(ins) == 1 {
